@@ -489,6 +489,17 @@ func (m *Matcher) match(pattern interface{}, fact interface{}, bindings Bindings
 			}
 			binding, found := bs[vv]
 			if found {
+				if s, is := binding.(string); is && m.IsVariable(s) {
+					// The bound value is a string that looks like
+					// a variable (a message is data, and may carry
+					// one).  It is data here, too: following it as
+					// a variable would, for "?x" bound to "?x",
+					// never end.
+					if fs, is := f.(string); is && fs == s {
+						return []Bindings{bindings}, nil
+					}
+					return nil, nil
+				}
 				return m.match(binding, fact, bindings)
 			} else {
 				// add new binding
